@@ -61,8 +61,16 @@ def group(label, cases):
     return {"label": label, "defines": d}
 
 
-def chunks(l, n):
-    return [l[i:i + n] for i in range(0, len(l), n)]
+def chunks(l, n, weight=14):
+    """groups of at most n cases and at most `weight` records (+1 per case): cost grows with the number of parsed records"""
+    out, cur, w = [], [], 0
+    for c in l:
+        cw = len(c["seq"]) + 1
+        if cur and (len(cur) >= n or w + cw > weight):
+            out.append(cur); cur, w = [], 0
+        cur.append(c); w += cw
+    if cur: out.append(cur)
+    return out
 
 
 ALPHA = [1, 2, 3, 4, 5]           # header, certificate, publication, signature, unknown 0x0705
@@ -76,7 +84,7 @@ special = [
     case((1, 4), empty_mask=2), case((1, 4), empty_mask=1), case((1, 2, 3, 4), empty_mask=7), case((1, 2, 3), trail=1), case((1,), cut=2),
 ]
 Q = chunks(all_le2, 8) + chunks(special, 6)
-T = chunks(all_le2 + all_3 + all_4_h, 10) + chunks(special, 6)
+T = chunks(all_le2 + all_3 + all_4_h, 10, 30) + chunks(special, 6, 30)
 RFP = [
     "storeObjectValue.function_pointer_call.1/KSI_PublicationsFile_getCertificates,KSI_PublicationsFile_getPublications",
     "storeObjectValue.function_pointer_call.2/KSI_CertificateRecordList_new,KSI_PublicationRecordList_new",
@@ -132,7 +140,7 @@ h3 = {"name": "h3_lookup", "src": "h3_lookup.c", "env": ["ctx", "hash_model", "l
       "bound": "publication lists of 0..4 records (absent list and empty list), certificate lists of 0..4 records with id lengths 0..4 (equal, shorter and longer than the query id); all times (64 bit), imprint bytes, id bytes and the query symbolic",
       "instances": h3i}
 h3int = {"name": "h3_int", "src": "h3_int.c", "env": ["ctx"], "tus": ["types_base"], "unwind": 2, "timeout": 300, "mem_gb": 8, "object_bits": 12,
-         "functions": ["KSI_Integer_new", "KSI_Integer_getUInt64", "KSI_Integer_equals", "KSI_Integer_compare", "KSI_Integer_free"], "bound": "all pairs of 64-bit values"}
+         "functions": ["KSI_Integer_new", "KSI_Integer_getUInt64", "KSI_Integer_equals", "KSI_Integer_compare", "KSI_Integer_free"], "bound": "all pairs of 64-bit values", "solver": "cadical"}
 
 plan = {"property": "C18", "outside": "TBD", "assumptions": [], "manifest": {"claimed": True, "level_text": "TBD", "level_note": "TBD"},
         "harnesses": [h1, h2, h3, h3int]}
